@@ -23,3 +23,64 @@ Theorem C17_table_check_sound :
   forall tbl, check_table tbl = true -> forall a, In a tbl -> a_justification a <> JNone.
 Proof. exact C17_table_sound. Qed.
 Print Assumptions C17_table_check_sound.
+
+(* ------------------------------------------------------------------ *)
+(* The deferred-sort TICKET protocol (segment.RequestSort, segmentStack.ensureSorted).
+   [current_progs] is the IR of the two functions; the C17 check regenerates that IR
+   from /repo's segment.go and segment_stack.go (harness/sortscan) and proves it equal.
+   [reachable st]: st is reached from an initial state with any assignment of
+   readers (ensureSorted over any range), RequestSort callers (either flag) to any
+   number of goroutines, any set of born-sorted segments, by any schedule. *)
+From Moss Require Import SortProto SortProtoFacts SortProtoSafety SortProtoMutants.
+
+(* no step of any schedule enters a write section that is occupied or that a reader has
+   searched, searches a segment that is being sorted or whose sort it is not ordered after
+   (happens-before through the close of waitSortedCh), or closes a closed channel *)
+Theorem C17_sort_protocol_no_violation : forall st, reachable st -> bad st = None.
+Proof. exact sort_no_violation. Qed.
+Print Assumptions C17_sort_protocol_no_violation.
+
+(* (a) at most one goroutine inside the write section of a segment; entered at most once *)
+Theorem C17_sort_write_section_exclusive : forall st s, reachable st ->
+  s_inw (ss st s) <= 1 /\ s_entered (ss st s) <= 1.
+Proof. exact sort_write_section_exclusive. Qed.
+Print Assumptions C17_sort_write_section_exclusive.
+
+(* (b) a reader that finished ensureSorted(lo,hi) finds every segment in range sorted, its
+   sort finished, nobody inside, and is ordered after the end of the write *)
+Theorem C17_ensure_sorted_then_reads_are_ordered : forall st g lo hi,
+  reachable st -> ensure_finished st g lo hi ->
+  forall s, lo <= s <= hi ->
+    sorted_for st g s = true /\
+    (s_nil (ss st s) = false -> s_done (ss st s) = true) /\ s_inw (ss st s) = 0.
+Proof. exact sort_ensure_sorted_sound. Qed.
+Print Assumptions C17_ensure_sorted_then_reads_are_ordered.
+
+(* (b) RequestSort: true means sorted and ordered; false only when not synchronous *)
+Theorem C17_request_sort_answer_sound : forall st g s sy b, reachable st ->
+  g_kind (gs st g) = KRequest s sy -> g_frame (gs st g) = None -> g_ret (gs st g) = Some b ->
+  if b then sorted_for st g s = true /\ (s_nil (ss st s) = false -> s_done (ss st s) = true) /\
+            s_inw (ss st s) = 0
+  else sy = false.
+Proof. exact sort_request_sort_sound. Qed.
+Print Assumptions C17_request_sort_answer_sound.
+
+(* (c) no deadlock: whoever waits on waitSortedCh is released by at most four steps of the
+   ticket holder (another goroutine), none of which blocks *)
+Theorem C17_sort_waiter_released_by_sorter : forall st g s, reachable st -> waiting_on st g s ->
+  exists h n, h <> g /\ s_holder (ss st s) = Some h /\ 1 <= n <= 4 /\
+    s_latch (ss (run_g current_progs st h n) s) = true /\
+    forall i, i < n -> blocked (run_g current_progs st h i) h = false.
+Proof. exact sort_waiter_released. Qed.
+Print Assumptions C17_sort_waiter_released_by_sorter.
+
+(* the regressions that were seeded into this protocol, and three more, each violate it on
+   a computed schedule *)
+Theorem C17_sort_mutants_refuted :
+  refuted m_wait_strict /\ refuted m_wait_low /\ refuted m_assign /\
+  refuted m_rogue /\ refuted m_else_sorts /\ refuted m_close_first.
+Proof.
+  exact (conj m_wait_strict_refuted (conj m_wait_low_refuted (conj m_assign_refuted
+        (conj m_rogue_refuted (conj m_else_sorts_refuted m_close_first_refuted))))).
+Qed.
+Print Assumptions C17_sort_mutants_refuted.
